@@ -75,6 +75,13 @@ def gen_plan(streams, tier):
     ops = []
     nops = rnd.randrange(4, 17)
     p_light = rnd.choice((0.0, 0.0, 0.5, 1.0))
+    if rnd.random() < 0.04:
+        # shuffle an object, shuffle the result (so the library has worked on it), let it die, put a different
+        # object of the same length and end residues in its place, shuffle that one
+        fzx = {"fz": "explicit", "fl": [0], "ft": "set", "panel": False}
+        ops += [dict({"k": "move", "o": -1, "m": "full_shuffle", "light": True}, **fzx), dict({"k": "move", "o": -1, "m": "full_shuffle", "light": True}, **fzx),
+                {"k": "drop", "o": -2}, dict({"k": "move", "o": -2, "m": "full_shuffle"}, **fzx),
+                dict({"k": "shuffle_api", "o": -3}, **fzx)]
     if rnd.random() < 0.01:
         # a very long chain of swaps on objects whose delta-max is never looked at
         for q in range(1100):
@@ -112,7 +119,7 @@ def gen_plan(streams, tier):
         else:
             ops.append({"k": "permutant", "o": o, "reuse_permutants": rnd.random() < 0.7})
     noise = rnd.randrange(1 << 30) if rnd.random() < 0.2 else None
-    return {"property": ID, "env": envmode.choose(rnd), "run_seed": streams.run_seed, "noise": noise, "roots": roots, "rng_mode": rng_mode, "clock_mode": clock_mode,
+    return {"property": ID, "env": envmode.choose(rnd, extra=("np_err_raise",)), "run_seed": streams.run_seed, "noise": noise, "roots": roots, "rng_mode": rng_mode, "clock_mode": clock_mode,
             "bias": rnd.choice((0.15, 0.35, 0.6)), "ops": ops}
 
 
@@ -226,9 +233,10 @@ def corpus():
         {"k": "setter", "o": 0, "n": 2}, {"k": "swapres", "o": 0, "i": 0.1, "j": 0.5}, {"k": "move", "o": 0, "m": "swapRandChargeRes", "fz": "none", "ft": "set", "panel": False},
         {"k": "setter", "o": 1, "n": 3}, {"k": "move", "o": 1, "m": "full_shuffle", "fz": "none", "ft": "set", "panel": False}, {"k": "setter", "o": 2, "n": 1},
         {"k": "shuffle_api", "o": 0, "fz": "none", "ft": "set", "panel": False}, {"k": "setter", "o": -1, "n": 2}])
-    mk("objects_die_and_are_replaced", ["GSKETGSKETYKE"], [op_ for q in range(6) for op_ in (
-        {"k": "shuffle_api", "o": 0, "fz": "explicit", "fl": [0, 12], "ft": "set", "panel": False, "light": True}, {"k": "drop", "o": -1},
-        {"k": "move", "o": -1, "m": "full_shuffle", "fz": "explicit", "fl": [0, 3, 12], "ft": "set", "panel": False})])
+    fzx = {"fz": "explicit", "fl": [0, 12], "ft": "set", "panel": False}
+    mk("objects_die_and_are_replaced", ["GSKETGSKETYKE"], [op_ for q in range(5) for op_ in (
+        dict({"k": "move", "o": -1, "m": "full_shuffle", "light": True}, **fzx), dict({"k": "move", "o": -1, "m": "full_shuffle", "light": True}, **fzx),
+        {"k": "drop", "o": -2}, dict({"k": "move", "o": -2, "m": "full_shuffle"}, **fzx), dict({"k": "shuffle_api", "o": -3}, **fzx))])
     mk("frozen_charge_swap", ["MKEGSTYKEDDRRGSP"], [{"k": "move", "o": -1, "m": "swapRandChargeRes", "fz": z, "fp": 0.4, "fs": 9, "ft": "set", "panel": False}
                                                      for z in ("random", "pos", "neg", "neut", "all", "charged", "half")])
     mk("warm_cache_chain", ["GKEGKEGKEGKEGSTY"], [{"k": "warm", "o": 0, "how": "kappa"}] +
@@ -444,7 +452,7 @@ def execute(plan, ctx):
     for n, op in enumerate(plan["ops"]):
         if n and n % 4 == 0 and len(plan["ops"]) <= 100:
             sweep("before op %d" % n)
-        i = op["o"] % len(live) if op["o"] >= 0 else len(live) - 1
+        i = op["o"] % len(live) if op["o"] >= 0 else max(0, len(live) + op["o"])
         parent = live[i]
         k = op["k"]
         pseq = str(parent)
@@ -471,21 +479,18 @@ def execute(plan, ctx):
         if k == "drop":
             # an object dies (nothing refers to it any more) and a different one of the same length and with the
             # same end residues is built right afterwards: anything remembered by id() now points at the wrong object
-            import gc
             if len(live) > len(plan["roots"]) and len(pseq) >= 4 and i >= len(plan["roots"]):
                 s_old = str(live[i])
-                inner = list(s_old[1:-1])
-                inner.reverse()
-                s_new = s_old[0] + "".join(inner) + s_old[-1]
+                s_new = s_old[0] + s_old[-2:0:-1] + s_old[-1]
                 api_results[:] = [r for r in api_results if r[1].SeqObj is not live[i]]
-                live[i] = None
-                parent = None
-                gc.collect()
-                live[i] = SequenceParameters(s_new).SeqObj
-                recorded[i] = s_new
-                set_sites.pop(i, None)
                 ctx.probe("object_dropped_and_replaced")
                 ctx.log.emit("drop", o=i, new=s_new)
+                recorded[i] = s_new
+                set_sites.pop(i, None)
+                # nothing is allocated between the death of the old object and the birth of the new one,
+                # so the new one very likely gets the old one's address
+                live[i] = parent = None
+                live[i] = seqmod.Sequence(s_new)
             continue
         if k == "warm":
             w = wrap(parent)
